@@ -374,6 +374,100 @@ fn main() {
         }
     }
 
+    // ---- family D: the reply path of real DhtNetworkManagers (table + connected peers) -------------------
+    // star / path / complete graphs; every node is asked FIND_NODE, FIND_VALUE and GET for every 4-bit target
+    // prefix by every neighbour; also after one neighbour disconnected (table-only entry).
+    use saorsa_core::dht_network_manager::{DhtMessageType, DhtNetworkMessage, DhtNetworkOperation, DhtNetworkResult};
+    use vh::netsim::{NetCfg, build_net, dht_key_of, key_with_prefix, now_secs, paused_runtime, settle, xor_dist};
+    let mut reply_cfgs: Vec<(NetCfg, bool)> = Vec::new();
+    for n in run.tier.pick(vec![2usize, 3, 4, 11], vec![2, 3, 4, 5, 11, 14]) {
+        let shapes: Vec<Vec<(usize, usize)>> = if n <= 4 { vh::netsim::connected_graphs(n) } else { vec![(1..n).map(|b| (0, b)).collect(), (0..n).flat_map(|a| (a + 1..n).map(move |b| (a, b))).collect()] };
+        for g in shapes {
+            let prefix: Vec<u32> = (0..n as u32).map(|i| (1 + i) % 16).collect();
+            for disc in [false, true] {
+                for app in [true, false] {
+                    reply_cfgs.push((NetCfg { n, edges: g.clone(), prefix: prefix.clone(), bits: 4, k: 8, distinct_app_id: app, silent: vec![false; n] }, disc));
+                }
+            }
+        }
+    }
+    let reply_queries = std::sync::atomic::AtomicU64::new(0);
+    par_for(reply_cfgs.len(), |ci| {
+        if budget.exceeded() {
+            return;
+        }
+        let (cfg, disconnect_one) = &reply_cfgs[ci];
+        let rt = paused_runtime();
+        rt.block_on(async {
+            let net = build_net(cfg).await;
+            if *disconnect_one && cfg.n >= 3 {
+                // node 0 drops its connection to its last neighbour: that peer stays in the table only
+                if let Some((_, b)) = cfg.edges.iter().filter(|(a, _)| *a == 0).last() {
+                    let _ = net.nodes[0].transport.disconnect_peer(&net.nodes[*b].tid_hex).await;
+                    settle().await;
+                }
+            }
+            for j in 0..cfg.n {
+                let neighbours: Vec<usize> = (0..cfg.n).filter(|x| cfg.edges.iter().any(|(a, b)| (*a == j && b == x) || (*b == j && a == x))).collect();
+                let Some(&req) = neighbours.first() else { continue };
+                for tp in 0..16u32 {
+                    let key = key_with_prefix(tp, 4, 300 + tp);
+                    for (opname, op) in [("find_node", DhtNetworkOperation::FindNode { key }), ("find_value", DhtNetworkOperation::FindValue { key }), ("get", DhtNetworkOperation::Get { key })] {
+                        let msg = DhtNetworkMessage { message_id: format!("q{tp}"), source: net.nodes[req].app_id.clone(), target: None, message_type: DhtMessageType::Request, payload: op, result: None, timestamp: now_secs(), ttl: 10, hop_count: 0 };
+                        let bytes = postcard::to_stdvec(&msg).unwrap();
+                        let r = net.nodes[j].mgr.handle_dht_message(&bytes, &net.nodes[req].tid_hex).await;
+                        reply_queries.fetch_add(1, std::sync::atomic::Ordering::Relaxed);
+                        distinct.eval();
+                        let Ok(Some(rb)) = r else { continue };
+                        let Ok(m) = postcard::from_bytes::<DhtNetworkMessage>(&rb) else { continue };
+                        let nodes = match m.result {
+                            Some(DhtNetworkResult::NodesFound { nodes, .. }) => nodes,
+                            _ => Vec::new(),
+                        };
+                        let ids: Vec<Option<usize>> = nodes.iter().map(|nd| net.ident(&nd.peer_id)).collect();
+                        distinct.outcome(&(j, tp, opname, &ids));
+                        let wit = || json!({"config": cfg.json(), "one_neighbour_of_node0_disconnected": disconnect_one, "replying_node": j, "requester": req, "operation": opname, "target_prefix": tp,
+                                            "reply": nodes.iter().map(|nd| json!({"peer_id": net.names.get(&nd.peer_id).cloned().unwrap_or(nd.peer_id.clone()), "address": nd.address})).collect::<Vec<_>>()});
+                        let fe = |shape: &str| feats(&[("entry", format!("handle_dht_message({opname})")), ("shape", shape.into())]);
+                        if nodes.len() > 20 {
+                            run.violation_lazy("C02.cap", fe("reply-above-protocol-cap"), || (wit(), format!("reply lists {} nodes", nodes.len())));
+                        }
+                        // each peer once, under a single identifier
+                        let known: Vec<usize> = ids.iter().flatten().copied().collect();
+                        let mut seen = BTreeSet::new();
+                        if known.iter().any(|i| !seen.insert(*i)) {
+                            run.violation_lazy("C02.single-id", fe("same-peer-under-two-identifiers"), || (wit(), "reply names one peer twice (under two identifiers)".to_string()));
+                        }
+                        if known.contains(&j) {
+                            run.violation_lazy("C02.reply", fe("replying-node-lists-itself"), || (wit(), "reply lists the replying node".to_string()));
+                        }
+                        // exactness over everything node j knows: its neighbours (requester may be omitted)
+                        let mut want: Vec<usize> = neighbours.clone();
+                        want.sort_by_key(|i| xor_dist(&dht_key_of(&net.nodes[*i].tid_hex), &key));
+                        let want_no_req: Vec<usize> = want.iter().copied().filter(|i| *i != req).collect();
+                        let cap = 8usize;
+                        let a: Vec<usize> = want.iter().copied().take(cap).collect();
+                        let b: Vec<usize> = want_no_req.iter().copied().take(cap).collect();
+                        let mut dedup: Vec<usize> = Vec::new();
+                        for i in &known {
+                            if !dedup.contains(i) {
+                                dedup.push(*i);
+                            }
+                        }
+                        if !nodes.is_empty() && dedup != a && dedup != b {
+                            let shape = if dedup.len() < b.len() { "fewer-than-the-k-closest-known" } else { "not-the-k-closest-known" };
+                            run.violation_lazy("C02.reply", fe(shape), || (wit(), format!("reply {dedup:?}, the closest known peers are {a:?} (without the requester {b:?})")));
+                        }
+                        if nodes.is_empty() && !b.is_empty() && opname == "find_node" {
+                            run.violation_lazy("C02.reply", fe("empty-reply-although-peers-known"), || (wit(), "empty node list although the node knows peers".to_string()));
+                        }
+                    }
+                }
+            }
+        });
+    });
+    let reply_queries = reply_queries.into_inner();
+
     let samples: Vec<_> = stats.sample_histories.iter().map(|h| json!(h.iter().map(|&i| op_json(&ops[i])).collect::<Vec<_>>())).collect();
     let coverage = cov(vec![
         ("states", json!(stats.states + occ_done + full_done)),
@@ -386,7 +480,7 @@ fn main() {
         ("rule", json!("evaluation = one closest-node query (entry point, target, count) on a reached table; distinct = distinct (entry, target, count, answer) tuples")),
         ("bounds", json!({"bfs_depth": depth, "bfs_completed_depth": stats.completed_depth, "fixpoint": stats.fixpoint, "alphabet_ops": ops.len(), "ids": id_alpha.iter().map(|x| format!("{x:#04x}")).collect::<Vec<_>>(),
                            "bfs_states": stats.states, "bfs_transitions": stats.transitions, "revisits_compared": stats.revisits, "frontier_sizes": stats.frontier_sizes,
-                           "occupancy_tables": occ_done, "full_bucket_steps": full_done, "occupancy_values": occ_vals, "targets_bfs": targets_a.len(), "targets_occupancy": 256, "counts": COUNTS})),
+                           "occupancy_tables": occ_done, "full_bucket_steps": full_done, "reply_path_configs": reply_cfgs.len(), "reply_path_queries": reply_queries, "occupancy_values": occ_vals, "targets_bfs": targets_a.len(), "targets_occupancy": 256, "counts": COUNTS})),
     ]);
     run.finish(
         coverage,
@@ -394,7 +488,7 @@ fn main() {
             "every transition is an execution of the real DhtCoreEngine rebuilt by replay; reference = sorted set of ids whose insert returned Ok".into(),
             "ids differ from the local id in byte 0 only (8-bit id space); distances in lower bytes are not exercised".into(),
             "LogOnly close-group validation (the DhtNetworkManager configuration); IP/geo gates are kept non-binding by distinct /8 addresses".into(),
-            "the reply path of DhtNetworkManager (table + connected peers) is covered by the netsim part".into(),
+            "reply path: real DhtNetworkManagers on the in-memory wire, every connected graph of N<=4 plus stars/meshes of 11 (thorough 14) nodes, 16 target prefixes x 3 request kinds, with and without a table-only (disconnected) peer; the requester may or may not be excluded".into(),
         ],
     );
 }
